@@ -231,6 +231,26 @@ def assigned_names(sources: dict[str, str]) -> set[str]:
     return out
 
 
+BLOCK_BINDERS = re.compile(r"\b(?:with|include|render|call|macro)\b[^%]*?%\}|\b(?:for|tablerow)\s+([A-Za-z_][\w-]*)\s+in\b")
+KWARG = re.compile(r"([A-Za-z_][\w-]*)\s*:")
+ALIAS = re.compile(r"\bas\s+([A-Za-z_][\w-]*)")
+
+
+def block_bound_names(sources: dict[str, str]) -> set[str]:
+    """Names some block construct binds somewhere in the set (loop variables, with / include / render / call / macro arguments, aliases)."""
+    out: set[str] = set()
+    for s in sources.values():
+        for m in BLOCK_BINDERS.finditer(s):
+            if m.group(1):
+                out.add(m.group(1))
+            else:
+                out.update(KWARG.findall(m.group(0)))
+                out.update(ALIAS.findall(m.group(0)))
+                if re.match(r"macro\b", m.group(0)):
+                    out.update(re.findall(r"[A-Za-z_][\w-]*", m.group(0)))
+    return out
+
+
 def root_key(loc: tuple) -> str:
     """The key static analysis files a variable under: str() of its first segment."""
     head = loc[0]
@@ -266,6 +286,10 @@ def judge(ctx: core.Ctx, case: dict[str, Any]) -> None:
     rep_filters = set(an.filters)
     rep_tags = set(an.tags)
     assigned = assigned_names(sources)
+    # a macro body is isolated at run time but lies lexically inside whatever blocks surround its definition: a name bound by an
+    # enclosing with / for is "inside a block binding that name" in the property's (lexical) sense although the globals answer it
+    has_macro = any(re.search(r"\{%-?\s*macro\b", s) for s in sources.values())
+    lexically_bound = block_bound_names(sources) if has_macro else set()
     n_partial_calls = sum(len(re.findall(r"\b(?:include|render)\s+['\"]", s)) for s in sources.values())
     globals_hit = 0
     for data_enc in case["datas"]:
@@ -295,6 +319,9 @@ def judge(ctx: core.Ctx, case: dict[str, Any]) -> None:
                 root = loc[0]
                 if root in assigned:
                     ctx.count("global_lookup_of_a_name_assigned_somewhere_exempt")
+                    continue
+                if root in lexically_bound:
+                    ctx.count("global_lookup_of_a_name_bound_by_a_block_in_a_set_with_macros_exempt")
                     continue
                 ctx.count("global_lookups_judged")
                 if root not in rep_globals:
